@@ -532,11 +532,18 @@ var opDefs = []opDef{
 		return []string{fmt.Sprintf("u8:%d", door), "list:" + strings.Join(ts, ",")}, func(u uhppote.IUHPPOTE) string {
 			// the codes are a slice of a longer table (one table, four slots per door): neither the slice nor the
 			// rest of the table behind it may be written to
-			table := append(append([]uint32{}, ps...), 111111, 222222, 333333, 444444, 555555)
+			// (one flat table, the codes of the next door right behind: a call for the door before, on another client,
+			// comes first)
+			table := append(append(append([]uint32{}, 101010, 202020), ps...), 111111, 222222, 333333, 444444, 555555)
 			before := fmt.Sprint(table)
-			res := boolRes(u.SetDoorPasscodes(dev, door, table[:len(ps)]...))
-			if fmt.Sprint(table) != before {
-				return "mutated-argument"
+			other, _ := newClient(nil, types.BroadcastAddr{})
+			other.SetDoorPasscodes(dev|1, 1, table[:2]...)
+			res := boolRes(u.SetDoorPasscodes(dev, door, table[2:2+len(ps)]...))
+			// a write into the codes of THIS call shows in the request it sends; a write anywhere else is reported as such
+			after := append([]uint32{}, table...)
+			copy(after[2:2+len(ps)], ps)
+			if fmt.Sprint(after) != before {
+				return res + " ; mutated-argument"
 			}
 			return res
 		}
@@ -873,11 +880,13 @@ func streamOps(c *ctx) {
 	// (5) six clients on six goroutines at the same time
 	parallelPhase(c, N/200)
 	c.w.Notes = append(c.w.Notes, "ops stream, phase parallel: 6 goroutines x 40 calls, each goroutine with its own client, configuration and in-memory driver, two thirds of the calls carrying dates (PutCard, SetTimeProfile, AddTask, SetTime); every call judged by itself as in the sequential phases")
-	// (6) one client shared by six goroutines
-	sharedPhase(c, 2*c.scale)
-	c.w.Notes = append(c.w.Notes, "ops stream, phase shared-client: one client with three configured controllers used by 6 goroutines x 300 calls at once (SetAddress, DeviceList, GetTime, OpenDoor, GetDevice on the in-memory driver): every call returns and the process survives")
 	// (4) the real driver on loopback sockets: the request as the controller stand-in read it from the wire
 	wirePhase(c, N/8)
 	c.w.Notes = append(c.w.Notes, "ops stream, phase wire: the same operations through the REAL ut0311 driver (broadcast-to / UDP / TCP x debug flag on / off, every operation at least once in each combination) to a stand-in on 127.0.0.1; the request bytes compared with the model are the ones the stand-in read from its socket")
+	// (6) one client shared by six goroutines: last, and with everything before it written out (a concurrent map write
+	// is a fatal error that takes the process down)
+	c.w.Flush()
+	sharedPhase(c, 2*c.scale)
+	c.w.Notes = append(c.w.Notes, "ops stream, phase shared-client: one client with three configured controllers used by 6 goroutines x 300 calls at once (SetAddress, DeviceList, GetTime, OpenDoor, GetDevice on the in-memory driver): every call returns and the process survives")
 	c.w.Notes = append(c.w.Notes, "ops stream: the 31 sendto-based operations through the hooked in-memory driver; phase args: type-directed arguments with boundary values (serials with top byte set, card numbers around the Wiegand-26 limits, PIN 999999/1000000, doors 0..255, nil/partial/extra-key maps, IPv4 / 4-in-6 / nil / IPv6 addresses, dates incl. zero, HH:mm incl. 24:00, SetTime in several Locations), configurations {unconfigured, no address, 0.0.0.0, port 0, valid} x {udp,tcp,any,TCP,''} x broadcast set/unset; phase replies: single mutated fields and datagram sequences over the classes valid/short/long/wrong-serial/serial-0/wrong-code/wrong-som/som-19/malformed; phase history: 2..13 calls on one client instance compared call by call with the stateless model")
 }
